@@ -1,4 +1,5 @@
-"""Translator for C14 (and C13's lookup part): constants of OptionContext lookup read from the sources.
+"""Translator for C14 (constants only: the shape of the code is tied to the model by the correspondence run, not by regexes)
+Translator for C14 (and C13's lookup part): constants of OptionContext lookup read from the sources.
 
 generate(repo) -> (coq_text, dict, problems).  Every regex is anchored on the statement the model mirrors;
 a missing anchor is reported as a problem (= broken obligation), never defaulted.
@@ -104,12 +105,6 @@ def generate(repo):
             const('DASH', ord(m.group(1)), "findImpl: alias key rewriting c -> '-c'")
         else:
             problems.append('anchor not found: findImpl alias key rewriting')
-        if not re.search(r'\(it->first\s*==\s*k\)\s*&&\s*\(\(t\s*&\s*\(find_alias\|find_name\)\)\s*!=\s*0\)', fi):
-            problems.append('anchor not found: findImpl exact-match test')
-        if not re.search(r'else\s+if\s*\(\(t\s*&\s*find_prefix\)\s*!=\s*0\)', fi):
-            problems.append('anchor not found: findImpl prefix branch')
-        if not re.search(r'while\s*\(x\s*!=\s*up\s*&&\s*x->second\s*==\s*it->second\)\s*\{\s*\+\+x;\s*\}\s*if\s*\(x\s*==\s*up\s*&&\s*it\s*!=\s*up\)\s*\{\s*up\s*=\s*it;\s*\+\+up;\s*\}', fi):
-            problems.append('anchor not found: findImpl same-option narrowing of the prefix range')
         m = re.search(r'std::distance\(it,\s*up\)\s*!=\s*1\s*&&\s*eMask\)\s*\{\s*if\s*\(\(eMask\s*&\s*(\d+)u\)\s*&&\s*it\s*==\s*up\)\s*\{\s*throw\s+UnknownOption'
                       r'.*?if\s*\(\(eMask\s*&\s*(\d+)u\)\s*&&\s*it\s*!=\s*up\)', fi, re.S)
         if m and re.search(r'throw\s+AmbiguousOption', fi):
@@ -143,14 +138,6 @@ def generate(repo):
         m = re.search(r"char\s+sName\[2\]\s*=\s*\{\s*'(.)'\s*,\s*opt->alias\(\)\s*\}", io)
         if not m or ord(m.group(1)) != C.get('DASH', ord(m.group(1))):
             problems.append('anchor not found: insertOption alias key')
-        ia, il = io.find('value_type(shortName, k)'), io.find('value_type(l, k)')
-        if not (0 < ia < il):
-            problems.append('anchor not found: insertOption inserts alias key, then long name')
-        if not re.search(r'if\s*\(!shortName\.empty\(\)\)\s*\{\s*index_\.erase\(shortName\);\s*\}\s*throw\s+DuplicateOption', io):
-            problems.append('anchor not found: insertOption erases the alias key when the long name is refused')
-    aa = _body(cpp, r'OptionContext&\s+OptionContext::addAlias\s*\(')
-    if aa is None or not re.search(r'option\s*!=\s*end\(\)\s*&&\s*!aliasName\.empty\(\)', aa):
-        problems.append('anchor not found: addAlias guard')
     return '\n'.join(L) + '\n', C, problems
 
 
